@@ -129,6 +129,8 @@ def run_core_case(c):
     ops[-1].last = 1
     violations = []
     m = NativeMaster(port, ops, 0, oracle, c["master_mode"], violations)
+    if r.random() < 0.5:
+        m.scramble_rng = random.Random(c["seed"] + "/scramble")
     m.strobe_semantics = False
     if c.get("rdata_ready_prob"):
         m.rdata_ready_prob, m.rdata_rng = c["rdata_ready_prob"], random.Random(c["seed"] + "/rbp")
@@ -238,6 +240,8 @@ def run_case(c):
         ops.append(o)
     violations = []
     m = NativeMaster(dut.port_user, ops, 0, oracle, c["master_mode"], violations)
+    if r.random() < 0.5:
+        m.scramble_rng = random.Random(c["seed"] + "/scramble")
     m.strobe_semantics = False
     m.use_last = True      # the end-of-burst hint is part of the command payload (consumed by an up-converter behind the crossing)
     if c.get("rdata_ready_prob"):
